@@ -49,6 +49,8 @@ type Gen struct {
 	sawFail         bool
 	Kinds           map[string]int
 	bulkSeq         int
+	// Skip: objects (by model id) the generator does not pick
+	Skip map[int]bool
 }
 
 func nameOfLenG(n int, prefix string) string {
@@ -99,11 +101,29 @@ func (g *Gen) refOfKind(t *rapid.T, kind nt.Ftype3) Ref {
 	if pct(t, g.Cfg.BadRefs, "bad?") {
 		return g.badRef(t)
 	}
-	cands := g.X.M.LiveKind(kind)
+	cands := g.unskipped(g.X.M.LiveKind(kind))
 	if len(cands) == 0 || pct(t, g.Cfg.WrongKind, "wrongkind?") {
-		cands = g.X.M.Live()
+		cands = g.unskipped(g.X.M.Live())
 	}
 	return LiveRef(pick(t, cands, "obj"))
+}
+
+// unskipped leaves out the objects the generator is told not to pick (a pool of files that only serves to
+// push other inodes out of the cache); if nothing else is left, the list is returned as it is.
+func (g *Gen) unskipped(ns []*MNode) []*MNode {
+	if len(g.Skip) == 0 {
+		return ns
+	}
+	var out []*MNode
+	for _, n := range ns {
+		if !g.Skip[n.ID] {
+			out = append(out, n)
+		}
+	}
+	if len(out) == 0 {
+		return ns
+	}
+	return out
 }
 
 func (g *Gen) DirRef(t *rapid.T) Ref  { return g.refOfKind(t, nt.NF3DIR) }
@@ -113,7 +133,7 @@ func (g *Gen) AnyRef(t *rapid.T) Ref {
 	if pct(t, g.Cfg.BadRefs, "bad?") {
 		return g.badRef(t)
 	}
-	return LiveRef(pick(t, g.X.M.Live(), "obj"))
+	return LiveRef(pick(t, g.unskipped(g.X.M.Live()), "obj"))
 }
 
 func longName(n int, salt int) string {
